@@ -1,6 +1,7 @@
 """C16  Pruners never prune what their contract protects."""
 from __future__ import annotations
 
+import json
 import itertools
 import math
 import warnings
@@ -281,7 +282,7 @@ def threshold_oracle(spec: dict[str, Any], rep: dict[int, float]) -> bool:
     return math.isnan(v) or v < lo or v > up
 
 
-def execute(case: dict[str, Any], offset: int, check: bool, ctx: Ctx | None) -> list[Any]:
+def execute(case: dict[str, Any], offset: int, check: bool, ctx: Ctx | None, pruner: Any = None) -> list[Any]:
     """Runs the program; returns the trace [(trial, step, decision, bracket)]."""
     import optuna
 
@@ -293,7 +294,8 @@ def execute(case: dict[str, Any], offset: int, check: bool, ctx: Ctx | None) -> 
         other = optuna.create_study(storage=storage, study_name="unrelated")
         for _ in range(offset):
             other.ask()
-    pruner = make_pruner(spec)
+    if pruner is None:
+        pruner = make_pruner(spec)
     study = optuna.create_study(storage=storage, study_name=case["name"], direction=direction, pruner=pruner, sampler=optuna.samplers.RandomSampler(seed=0))
     curves = case["curves"]
     n = len(curves)
@@ -389,6 +391,19 @@ def run_study(case: dict[str, Any], ctx: Ctx) -> None:
         diff = next((a, b) for a, b in zip(t0, t1) if a != b)
         sig = "bracket-depends-on-more-than-name-and-number" if diff[0][:3] == diff[1][:3] else "decisions-change-with-trial-id-offset"
         raise Violation(sig, f"pruner={case['pruner']} name={case['name']!r}: [trial, step, decision, bracket] fresh storage {diff[0]} vs storage with {case['offset']} foreign trials {diff[1]}", case)
+    # the same pruner OBJECT after it served another study (a pruner created once and passed to
+    # create_study in a loop): decisions and brackets of this study do not depend on what the
+    # object saw before.  Configurations with "auto" resources are documented to fix that value
+    # from the first study the object sees and are left out.
+    if kind != "nop" and '"auto"' not in json.dumps(case["pruner"]):
+        shared = make_pruner(case["pruner"])
+        execute(dict(case, name="earlier-" + case["name"], direction="minimize" if case["direction"] == "maximize" else "maximize"), 0, False, None, pruner=shared)
+        t3 = execute(case, 0, False, None, pruner=shared)
+        ctx.event("pruner_object_reused")
+        if t0 != t3:
+            diff = next((a, b) for a, b in zip(t0, t3) if a != b)
+            sig = "bracket-depends-on-more-than-name-and-number" if diff[0][:3] == diff[1][:3] else "decisions-depend-on-pruner-object-history"
+            raise Violation(sig, f"pruner={case['pruner']} name={case['name']!r}: [trial, step, decision, bracket] with a fresh pruner object {diff[0]} vs with a pruner object that served study 'earlier-{case['name']}' before {diff[1]}", case)
     # a second pruner object on a study with the same name but different history/content:
     if kind == "hyperband" and isinstance(case["pruner"]["max_resource"], int):
         b0 = {(i): br for i, _, _, br in t0}
